@@ -4,11 +4,13 @@ import SimVerif.Driver.Vote
 import SimVerif.Driver.Feat
 import SimVerif.Driver.Geom
 import SimVerif.Driver.Store
+import SimVerif.Driver.Trk
 open SimVerif SimVerif.Wire SimVerif.Driver
 
 structure DState where
   constr : ConstrD.St := {}
   store : StoreD.St := {}
+  trk : TrkD.St := {}
 
 /-- one request per line: `<family> <args…> => <implementation's answer…>`; one answer per line -/
 def step (st : DState) (line : String) : DState × String :=
@@ -19,6 +21,7 @@ def step (st : DState) (line : String) : DState × String :=
   | "nms" :: args => (st, NmsD.handle args impl)
   | "track" :: args => let (s, r) := StoreD.handleTrack st.store args impl; ({ st with store := s }, r)
   | "store" :: args => let (s, r) := StoreD.handleStore st.store args impl; ({ st with store := s }, r)
+  | "trk" :: args => let (s, r) := TrkD.handle st.trk args impl; ({ st with trk := s }, r)
   | "box" :: args => (st, GeomD.handleBox args impl)
   | "geom" :: args => (st, GeomD.handleGeom args impl)
   | "feat" :: args => (st, FeatD.handle args impl)
